@@ -273,6 +273,18 @@ func c10(e *Env) {
 	}
 	for _, u := range need("OutFiles") {
 		o := ob("OutFiles", "OutFiles[port] ← FileIP.Path for every out-IP")
+		if u.key == nil {
+			// the whole map is assigned at once (built elsewhere): judged by what it is built from
+			vs := u.val.String()
+			if strings.Contains(vs, fnTempPath+"(") || strings.Contains(vs, fnFifoPath+"(") {
+				o.Fail(g.Where(u.n), "OutFiles is assigned "+trunc(vs, 120)+": the record names temp / FIFO paths instead of the final paths of the outputs")
+			} else if strings.Contains(vs, fnPath+"(") && overField(u.val, ".OutIPs") {
+				o.OK(g.Where(u.n), "OutFiles = "+trunc(vs, 100))
+			} else {
+				o.Unknown(g.Where(u.n), "OutFiles is assigned as a whole from "+trunc(vs, 120)+", which could not be followed to FileIP.Path of the out-IPs")
+			}
+			continue
+		}
 		if !(isCallSym(u.val, fnPath) && overField(u.val, ".OutIPs") && strings.Contains(u.key.String(), ".OutIPs")) {
 			o.Fail(g.Where(u.n), "OutFiles["+u.key.String()+"] = "+u.val.String())
 		} else if loopAll(o, u, "recording of output paths") {
